@@ -1,6 +1,7 @@
 package c14
 
 import (
+	"encoding/json"
 	"context"
 	"os"
 	"path/filepath"
@@ -24,6 +25,9 @@ func probeDesign() *m.Design {
 	add("nulls", rt.Obj(rt.Fld("o", rt.Obj(rt.Fld("x", m.Prim(m.String), false), rt.Fld("y", m.Prim(m.Int), false)), false)), nil)
 	add("byteslen", rt.Obj(rt.Fld("b", &m.Attr{Type: &m.Type{Kind: m.Bytes}, V: &m.Validation{MaxLen: ip(4)}}, true)), nil)
 	add("maplen", rt.Obj(rt.Fld("mm", &m.Attr{Type: &m.Type{Kind: m.Map, Key: m.Prim(m.String), Val: m.Prim(m.Boolean)}, V: &m.Validation{MinLen: ip(2)}}, true)), nil)
+	// two bodies with the same attributes, only the first restricts "a"
+	add("enuma", rt.Obj(rt.Fld("a", &m.Attr{Type: &m.Type{Kind: m.String}, V: &m.Validation{Enum: []value.V{value.Str("red"), value.Str("green")}}}, true)), nil)
+	add("enumb", rt.Obj(rt.Fld("a", m.Prim(m.String), true)), nil)
 	d.Services = []*m.Service{s}
 	return d
 }
@@ -47,6 +51,23 @@ func TestProbes(t *testing.T) {
 		return o
 	}
 	f := func(n string, v value.V) value.Field { return value.Field{N: n, V: v} }
+	rt.Probe("C14-openapi3-schema-shared-by-bodies-with-different-validations", func() (bool, string) {
+		var d3 struct {
+			Paths map[string]map[string]struct {
+				RequestBody struct {
+					Content map[string]struct {
+						Schema struct {
+							Ref string `json:"$ref"`
+						} `json:"schema"`
+					} `json:"content"`
+				} `json:"requestBody"`
+			} `json:"paths"`
+		}
+		_ = json.Unmarshal(jb, &d3)
+		ra := d3.Paths["/enuma"]["post"].RequestBody.Content["application/json"].Schema.Ref
+		rb := d3.Paths["/enumb"]["post"].RequestBody.Content["application/json"].Schema.Ref
+		return ra != "" && ra == rb, "request bodies {a: String Enum(red, green)} and {a: String}: openapi3.json refers both to " + ra + " / " + rb
+	})
 	rt.Probe("C14-null-for-unset-nested-attribute", func() (bool, string) {
 		o := call("nulls", value.Object(f("o", value.Object(f("x", value.Str("a"))))))
 		body := ""
